@@ -53,7 +53,9 @@
 (*   Dead = TRUE          : the key initially holds an EXPIRED entry that   *)
 (*                          maintenance has not removed yet: lookups miss, *)
 (*                          the node is still in the table.  Writer kind   *)
-(*                          "sweep" is the expiration sweep removing it.   *)
+(*                          "sweep" is the expiration sweep removing it,   *)
+(*                          "cancel" a computation that cancels itself     *)
+(*                          (it removes the dead node it finds, no write). *)
 (*   SweepCancels = TRUE  : removing that dead node clears the in-flight   *)
 (*                          load of the key (the load that was started     *)
 (*                          BECAUSE the entry had expired) -> NoDrop       *)
@@ -146,7 +148,7 @@ begin
            \* removing an absent key changes nothing (but an explicit invalidation still clears the in-flight record)
            wrote := WriterKind[self] = "set" \/ (WriterKind[self] \in {"invalidate", "evict"} /\ val # Nil);
            if wrote \/ WriterKind[self] = "invalidate" \/ (WriterKind[self] = "stale" /\ StaleCancels)
-                    \/ (WriterKind[self] = "sweep" /\ dead /\ SweepCancels) then
+                    \/ (WriterKind[self] \in {"sweep", "cancel"} /\ dead /\ SweepCancels) then
               infl := Nil; superseded := superseded \cup created;
            end if;
            \* C09: after an explicit invalidation the cache holds nothing - a load it cancelled is not "dropped"
@@ -157,7 +159,7 @@ begin
               stale := [p \in Getters \cup Refreshers |-> TRUE]; touched := [p \in Getters \cup Refreshers |-> TRUE];
            end if;
            \* the dead node leaves the table with a write, an invalidation or the sweep; nothing visible changes (val was Nil already)
-           if WriterKind[self] \in {"set", "invalidate", "sweep"} then dead := FALSE; end if;
+           if WriterKind[self] \in {"set", "invalidate", "sweep", "cancel"} then dead := FALSE; end if;
            locked := FALSE;
 end process;
 end algorithm; *)
@@ -327,7 +329,7 @@ w_cancel(self) == /\ pc[self] = "w_cancel"
                   /\ locked' = TRUE
                   /\ wrote' = [wrote EXCEPT ![self] = WriterKind[self] = "set" \/ (WriterKind[self] \in {"invalidate", "evict"} /\ val # Nil)]
                   /\ IF wrote'[self] \/ WriterKind[self] = "invalidate" \/ (WriterKind[self] = "stale" /\ StaleCancels)
-                                     \/ (WriterKind[self] = "sweep" /\ dead /\ SweepCancels)
+                                     \/ (WriterKind[self] \in {"sweep", "cancel"} /\ dead /\ SweepCancels)
                         THEN /\ infl' = Nil
                              /\ superseded' = (superseded \cup created)
                         ELSE /\ TRUE
@@ -349,7 +351,7 @@ w_store(self) == /\ pc[self] = "w_store"
                             /\ touched' = [p \in Getters \cup Refreshers |-> TRUE]
                        ELSE /\ TRUE
                             /\ UNCHANGED << val, stale, touched >>
-                 /\ IF WriterKind[self] \in {"set", "invalidate", "sweep"}
+                 /\ IF WriterKind[self] \in {"set", "invalidate", "sweep", "cancel"}
                        THEN /\ dead' = FALSE
                        ELSE /\ TRUE
                             /\ dead' = dead
